@@ -20,6 +20,8 @@ type Case struct {
 	S      string `json:"s"`
 	B      string `json:"b"`
 	Expand bool   `json:"expand"`
+	// Prior: a sequence evaluated immediately before the judged calls, its results discarded
+	Prior string `json:"prior,omitempty"`
 }
 
 func multisetEqual(a, b []string) bool {
@@ -39,6 +41,19 @@ func multisetEqual(a, b []string) bool {
 }
 
 func check(c Case) error {
+	if len(c.S) <= 3000 {
+		for _, sib := range vk.Siblings(c.S) { // related inputs first, results discarded
+			_ = transform.ReverseComplement(sib)
+			_ = transform.Complement(sib)
+			_ = checks.IsPalindromic(sib)
+		}
+	}
+	if c.Prior != "" {
+		_ = transform.ReverseComplement(c.Prior)
+		_ = transform.Complement(c.Prior)
+		_ = checks.IsPalindromic(c.Prior)
+		_, _ = variants.AllVariantsIUPAC(c.Prior)
+	}
 	s := c.S
 	want := ref.RevComp(s)
 	got := transform.ReverseComplement(s)
@@ -181,6 +196,21 @@ func gen(t *rapid.T) Case {
 }
 
 func TestSub_random(t *testing.T) { vk.RunRapid(t, subRandom) }
+
+var subCollisions = vk.Register(&vk.Sub[Case]{Name: "collisions", Check: check, NonTrivial: func(Case) bool { return true }})
+
+// TestSub_collisions: the two sequences of every checksum-colliding pair (vk.CollidingPairs) one directly after the other.
+func TestSub_collisions(t *testing.T) {
+	vk.RunEnum(t, subCollisions, "every checksum-colliding pair of 30-mers x both orders x {upper, lower case}", true, func(yield func(Case) bool) {
+		for _, pr := range vk.CollidingPairs() {
+			for _, o := range [][2]string{{pr.A, pr.B}, {pr.B, pr.A}, {strings.ToLower(pr.A), strings.ToLower(pr.B)}} {
+				if !yield(Case{S: o[1], B: "ac", Prior: o[0], Expand: true}) {
+					return
+				}
+			}
+		}
+	})
+}
 
 func TestSub_enum(t *testing.T) {
 	upperMax := vk.Pick(4, 5)
